@@ -34,5 +34,6 @@ Definition dispatch (u : Z) (a : sx) : sx :=
   | 25 => u_score_voting a
   | 26 => u_mj a
   | 27 => u_score_to_simple a
+  | 28 => u_overhang a
   | _ => bad_input
   end.
